@@ -111,6 +111,10 @@ def delivery_loop(ctx, rule):
 
 
 
+# the canonical (inlined, see core.INLINE_ALWAYS) form of "restart delivery in the enclosing scope"
+RESTART = "self._parent_scope._restart_cancellation()"
+
+
 def check(ctx):
     cancel = ctx.fn("CancelScope.cancel", A)
     enter = ctx.fn("CancelScope.__enter__", A)
@@ -195,26 +199,28 @@ def check(ctx):
             return (ptr, True)
         return st
 
+    NOPARENT = F("self._parent_scope is None")
+
     def at_exit_d(kind, st, facts):
         ptr, rs = st
         if kind in ("return",) or kind.startswith("raise:BaseExceptionGroup") or kind == "raise:?":
-            if not rs:
+            if not rs and NOPARENT not in facts:      # (a root scope has no enclosing scope to restart)
                 return f"__exit__ leaves ({kind}) without restarting cancellation delivery in a cancelled enclosing scope (the task would run on un-cancelled)"
         return None
 
-    ctx.paths("R03-d", exit_, [("ptr", "$S.cancel_scope = self._parent_scope"), ("restart", "self._restart_cancellation_in_parent()")], step_d,
+    ctx.paths("R03-d", exit_, [("ptr", "$S.cancel_scope = self._parent_scope"), ("restart", RESTART)], step_d,
               (False, False), at_exit_d, instance="exit restarts delivery in the parent")
     val = shield_set.node.args.args[1].arg
-    rs = ctx.sites(shield_set, "self._restart_cancellation_in_parent()")
+    rs = ctx.sites(shield_set, RESTART)
     if ctx.need("R03-d", shield_set, "un-shielding restarts delivery in the parent", len(rs), 1):
         ctx.require_at("R03-d", shield_set, rs[0][0], [[f"not {val}"]], instance="restart when the shield is dropped")
 
     def at_exit_s(kind, st, facts):
-        if kind == "return" and not st and (val, True) not in facts and (F(f"self._shield == {val}")[0], True) not in facts:
+        if kind == "return" and not st and (val, True) not in facts and (F(f"self._shield == {val}")[0], True) not in facts and NOPARENT not in facts:
             return "dropping the shield does not restart delivery of a visible outer cancellation"
         return None
 
-    ctx.paths("R03-d", shield_set, [("restart", "self._restart_cancellation_in_parent()")], lambda st, e, c: True if not c.is_exc else st, False,
+    ctx.paths("R03-d", shield_set, [("restart", RESTART)], lambda st, e, c: True if not c.is_exc else st, False,
               at_exit_s, instance="un-shield path reaches the restart")
     # the restart helper(s)
     restart_walker(ctx, "R03-d")
